@@ -429,8 +429,13 @@ def c10(rec):
     for o in rec.ops:
         if o["op"][0] == "reuse" and o["returned"] and o["exc"] is None and "same" in o:
             want = o["op"][1].get("max_workers")
+            # an explicit shutdown by the user that started before the call returned takes the
+            # workers away legitimately (the statement describes a resize, not a resize racing
+            # with the end of the executor's life)
+            stopped = any(x["op"][0] in ("shutdown", "kill", "with_exit")
+                          and x.get("seq_start", 0) < o.get("seq_end", 0) for x in rec.ops)
             if o["same"] and want is not None and not o["broken"] and not kill \
-                    and o.get("started_before", True):
+                    and o.get("started_before", True) and not stopped:
                 if o.get("stale_sentinels") and not timed:
                     out.append(dict(signature=f"C10:stale-sentinel:{o['stale_sentinels']}|cause={c}",
                                     msg=f"resize to {want} returned leaving {o['stale_sentinels']} "
